@@ -9,10 +9,13 @@
    usb.py     UsbPacketSource.queue_packet -> [usb_feed] (type byte prepended)
    tcp_server.py / unix.py  server protocol life cycle -> [srv_step] / [srv_run]
    ws_server.py  WsServerTransport.on_connection      -> [ws_connection]
+   android_netsim.py  Server.lease_sink / HciDevice.pump_loop -> [netsim_connection]
 
    Bytes are [list Z] (each in [0,256), see [bytes_ok]); all integers are Z.
-   The servers are modelled AFTER fix D02 (fixes/D02.patch): the shared parser is reset
-   when a client connects.
+   The servers are modelled AFTER fixes D02 / D02b (fixes/D02.patch, fixes/D02b.patch): the
+   shared parser is reset when a client connects.  The statement skeletons of all modelled
+   functions are recorded in Model/FramerShape.v and compared with the current source on
+   every run (Gen/C02Shape.v).
 
    Abstractions (exact statement of what is not literal):
    - data[data_offset:data_offset+consumed] / data_left are the list suffix [data];
@@ -388,6 +391,15 @@ Fixpoint ws_messages (t : table) (s : parser) (msgs : list (option (list Z)))
   end.
 Definition ws_connection (t : table) (s : parser) (msgs : list (option (list Z))) :=
   ws_messages t reset msgs.
+
+(* android_netsim controller transport (gRPC server): Server.lease_sink hands
+   parser.feed_data of the ONE shared parser to each device that connects, [D02b fix] after
+   parser.reset(); HciDevice.pump_loop feeds bytes([packet_type]) + packet for every
+   hci_packet message; an InvalidPacketError leaves pump_loop and ends that device's
+   stream (pump releases the sink). A message is (packet_type, packet). *)
+Definition netsim_message (m : Z * list Z) : option (list Z) := Some (fst m :: snd m).
+Definition netsim_connection (t : table) (s : parser) (msgs : list (Z * list Z)) :=
+  ws_messages t reset (map netsim_message msgs).
 
 (* ------------------------------------------------------------------ evaluation support
    (used only by tools/harness/c02.py to keep case literals and results small) *)
